@@ -37,7 +37,7 @@ func RunTail(w *World, adv *Adversary, p *Profile, res *Result) {
 	var ids []string
 	for _, id := range w.Order {
 		n := w.Nodes[id]
-		if uint64(n.St.Height()) == H {
+		if uint64(n.St.Height()) == H && w.Comm(H).Has(id) {
 			deciding = append(deciding, n)
 			ids = append(ids, id)
 		}
